@@ -515,19 +515,26 @@ private:
             return nullptr;
         }
 
-        this->my_wait_context.reserve();
         small_object_allocator alloc{};
         auto block_handling_task = alloc.new_object<block_handling_type>(ed, this->my_wait_context, this->my_execution_context,
                                                                          this->my_body, this->my_feeder_holder.feeder_ptr(),
                                                                          alloc);
 
         auto* block_iterator = block_handling_task->block_iteration_space.begin();
-        for (; !(this->my_first == this->my_last) && block_handling_task->my_size < block_handling_type::max_block_size; ++this->my_first) {
-            // Move semantics are automatically used when supported by the iterator
-            new (block_iterator++) Item(*this->my_first);
-            ++block_handling_task->my_size;
-        }
+        // The iterator and the copy of an item are user code and can throw:
+        // destroy the block task together with the items copied so far
+        try_call( [&] {
+            for (; !(this->my_first == this->my_last) && block_handling_task->my_size < block_handling_type::max_block_size; ++this->my_first) {
+                // Move semantics are automatically used when supported by the iterator
+                new (block_iterator++) Item(*this->my_first);
+                ++block_handling_task->my_size;
+            }
+        } ).on_exception( [&] {
+            alloc.delete_object(block_handling_task, ed);
+        } );
 
+        // Take the reference for the block task only when nothing can fail anymore, it is released in finalize()
+        this->my_wait_context.reserve();
         // Do not access this after spawn to avoid races
         spawn(*this, this->my_execution_context);
         return block_handling_task;
@@ -558,12 +565,14 @@ private:
             ++block_size;
         }
 
-        this->my_wait_context.reserve();
         small_object_allocator alloc{};
         auto block_handling_task = alloc.new_object<block_handling_type>(ed, first_block_element, block_size,
                                                                          this->my_wait_context, this->my_execution_context,
                                                                          this->my_body, this->my_feeder_holder.feeder_ptr(), alloc);
 
+        // Take the reference for the block task only when it exists (copying the user's iterator can throw),
+        // it is released in finalize()
+        this->my_wait_context.reserve();
         // Do not access this after spawn to avoid races
         spawn(*this, this->my_execution_context);
         return block_handling_task;
